@@ -247,6 +247,9 @@ func ruleC17(w *World, r *Report) {
 	r.floor("R17.2 conversion calls in the Cartesian product", nE, 3)
 	portRuleConsumers(w, r, "R17.5", cart)
 	ruleC17DoneOnce(w, r)
+	ruleBessWorkersReportTrue(w, r, "R17.11")
+	r.withRule("R17.12", func() { ruleC04AppFilterEmpty(w, r) })
+	ruleProductStartsEmpty(w, r, "C17", "R17.13")
 	ruleC17FreshResult(w, r, cart, complexF)
 	// the expansion loops terminate: no narrow counter that wraps at the end of the port space (and, for C08,
 	// the functions the expansion of a parsed filter runs through)
